@@ -168,6 +168,18 @@ func runConc(args []string) int {
 				put("wifdec", nhx(dw.PrivKey.D))
 				sd, _ := bip39.MnemonicToSeed(words, "x")
 				put("bip39.seed", hx(sd))
+				// two different calls whose arguments, written one after the other, are the same bytes (sentence | passphrase
+				// split at another place), overlapping in time: work shared between "identical" in-flight calls must not mix them
+				tail := " abandon abandon abandon"
+				for t := 0; t < 2; t++ {
+					if (w+t)%2 == 0 {
+						sa, _ := bip39.MnemonicToSeed(words, tail)
+						put("bip39.seed.split-a", hx(sa))
+					} else {
+						sb, _ := bip39.MnemonicToSeed(words+tail, "")
+						put("bip39.seed.split-b", hx(sb))
+					}
+				}
 				mn, _, _ := bip39.Mnemonic(bytes.Repeat([]byte{byte(it)}, 16), "")
 				put("bip39.mn"+fmt.Sprint(it), mn)
 				if shortK != nil {
